@@ -34,6 +34,6 @@ CFG = {
         "file modes: the property is about files the current code creates; a dkg.db that already exists keeps its mode (C15_dkgdb_existing_file_keeps_mode)",
         "derived leaks (timing, memory dumps, core files) are outside any executable model",
     ],
-    "level_text": "C15_secure_mode_precedes_content: the file fs.CreateSecureFile is applied to is the file the encoder writes into and the one that ends at the target (since the write-aside-and-rename Save: the temporary file). C15_modes: for EVERY umask, the key file, the share file and dkg.db have no group/other permission bit whenever content is written to them, proved by a bit-level lemma over the file-mode constants regenerated from fs.go / dkg/store.go (C15_secret_perm_constants fails if BoltStoreOpenPerm regresses to 0660); C15_noninterference: for all node states with equal public part and all requests, every modelled response / packet / stream item / log record is equal outside the fields computed by sign / partial_sign / pk_of / commit, as a consequence of the per-run obligation exposure_ok Gen.exposure = true over the field-source table the translator reads from the handlers, plus a generic soundness lemma (and a tightness lemma: every rejected field does leak in the model). Validation on every run: stat of every file the real key store, DKG store and chain store create under umask 000/002/022/027/077 (compared with the model inside Coq), and a byte scan (raw, reversed, hex, base64, decimal) of all control / public / protocol responses, HTTP bodies, DKG gossip and deal packets of a real 3-node DKG and resharing, partial-beacon packets, sync streams, stored beacons, public files and debug logs for every node's long-term scalar and share, over all 5 schemes.",
+    "level_text": "C15_secure_mode_precedes_content: the file fs.CreateSecureFile is applied to is the file the encoder writes into and the one that ends at the target (since the write-aside-and-rename Save: the temporary file). C15_modes: for EVERY umask, the key file, the share file and dkg.db have no group/other permission bit whenever content is written to them, proved by a bit-level lemma over the file-mode constants regenerated from fs.go / dkg/store.go (C15_secret_perm_constants fails if BoltStoreOpenPerm regresses to 0660); C15_noninterference: for all node states with equal public part and all requests, every modelled response / packet / stream item / log record is equal outside the fields computed by sign / partial_sign / pk_of / commit, as a consequence of the per-run obligation exposure_ok Gen.exposure = true over the field-source table the translator reads from the handlers, plus a generic soundness lemma (and a tightness lemma: every rejected field does leak in the model). Validation on every run: stat of every file the real key store, DKG store and chain store create under umask 000/002/022/027/077 (compared with the model inside Coq), and a byte scan (raw, reversed, hex, base64, decimal) of all control / public / protocol responses, HTTP bodies, DKG gossip and deal packets of a real 3-node DKG and resharing, partial-beacon packets, sync streams, stored beacons, public files and debug logs for every node's long-term scalar and share, over all 5 schemes. The modes child also saves the key pair and the share of a second beacon whose secret files are symbolic links into a vault folder (one dangling, one to an existing 0644 file) and stats the targets (monitor only).",
     "level_note": "Kernel + vm_compute; no axioms. The noninterference theorem is about the source table read by a syntactic translator (trusted, fails loudly on unknown shapes) and the mode theorem about a 4-operation model of open/chmod; both are tied to the real code by the per-run stat comparison and the byte scan. Secrecy of kyber's encrypted deals and of BLS/Schnorr signatures is assumed, not proved.",
 }
